@@ -1,13 +1,13 @@
 // Package peer is an INDEPENDENT scripted endpoint for the CEDAR security
 // handshake. It speaks the protocol through harness/internal/refcodec only
-// (frames, typed values, ClassAds as "Name = expr" strings, AES-256-GCM frame
-// sealing, SHA-256 transcript digests) and never imports cedar's security,
+// (frames, AES-256-GCM frame sealing, SHA-256 transcript digests) plus its own
+// typed-value / ClassAd-as-strings codec (typed.go) and never imports cedar's security,
 // message or stream packages. It plays either role against the REAL
 // security.Authenticator and can be told to deviate from the protocol.
 //
 // # Usage
 //
-//	a, b := wire.NewPipe("127.0.0.1:40001", "127.0.0.1:9618") // a: real endpoint, b: peer
+//	a, b := wire.C03NewPipe("127.0.0.1:40001", "127.0.0.1:9618") // a: real endpoint, b: peer
 //	p := peer.New(b, peer.Config{Role: peer.Server, Methods: []string{"CLAIMTOBE"},
 //	        Devs: peer.Devs(peer.AnswerAuthNo, peer.OmitECDH)})
 //	go func() { p.Run(); p.ReadApp(canary); p.Close() }()   // or step by step: for p.Next() {}
@@ -29,8 +29,8 @@
 // After the handshake: ReadApp (read one message the real endpoint wrote and
 // classify every frame as "protected" / "clear" / "opaque"), SendApp (send a
 // message, sealed or in clear). Lower-level primitives for other scripts:
-// SendMsg, SendFrame, RecvMsg, InstallKey, DeriveKey, PubKeyB64, plus the ad
-// helpers of refcodec (Ad, AppendAd, Reader).
+// SendMsg, SendFrame, RecvMsg, InstallKey, DeriveKey, PubKeyB64, plus the typed
+// codec of this package (Ad, AppendInt, AppendString, AppendAd, Reader).
 //
 // The first error stops the script (Obs.Err, Obs.FailedStep); later steps are
 // skipped. Close closes the connection, which also unblocks the real endpoint.
@@ -244,8 +244,8 @@ type Obs struct {
 	Err        error
 
 	HelloCmd   int64
-	Hello      *refcodec.Ad // client ad as received (server role) or sent (client role)
-	ServerAd   *refcodec.Ad // server ad as sent (server role) or received (client role)
+	Hello      *Ad // client ad as received (server role) or sent (client role)
+	ServerAd   *Ad // server ad as sent (server role) or received (client role)
 	Denied     bool         // a DENIED / non-AUTHORIZED ReturnCode was sent or received
 	AnswerAuth string       // "YES"/"NO" in the server ad
 	AnswerEnc  string
@@ -259,12 +259,12 @@ type Obs struct {
 	KeyDerived bool   // the peer derived the ECDH/HKDF session key (or took the resumed one)
 	Key        []byte // that key
 
-	PostAuth      *refcodec.Ad
+	PostAuth      *Ad
 	PostAuthClass string // "protected" (opened under the peer's key) | "clear" | "opaque" (neither)
 
 	ResumeRequested bool
 	ResumeSid       string
-	ResumeReply     *refcodec.Ad
+	ResumeReply     *Ad
 
 	Log []string
 }
@@ -292,7 +292,7 @@ type Peer struct {
 	pc    int
 
 	// negotiation state
-	hello, srvAd     refcodec.Ad
+	hello, srvAd     Ad
 	doAuth, wantEnc  bool
 	commonCipher     string
 	peerECDH         string
@@ -556,7 +556,7 @@ func (p *Peer) SendMsg(payload []byte, sealed bool) error { return p.SendFrame(1
 func (p *Peer) SendRaw(b []byte) error { _, err := p.conn.Write(b); return err }
 
 func (p *Peer) sendInt(v int) error {
-	return p.SendMsg(refcodec.AppendInt(nil, int64(v)), p.HasKey())
+	return p.SendMsg(AppendInt(nil, int64(v)), p.HasKey())
 }
 
 func (p *Peer) recvInt() (int, error) {
@@ -564,7 +564,7 @@ func (p *Peer) recvInt() (int, error) {
 	if err != nil {
 		return 0, err
 	}
-	r := refcodec.Reader{B: pl}
+	r := Reader{B: pl}
 	v, err := r.Int()
 	return int(v), err
 }
@@ -630,7 +630,7 @@ func (p *Peer) recvHello() error {
 	if err != nil {
 		return err
 	}
-	r := refcodec.Reader{B: pl}
+	r := Reader{B: pl}
 	cmd, err := r.Int()
 	if err != nil {
 		return err
@@ -694,7 +694,7 @@ func (p *Peer) sendServerAd() error {
 	if p.dev(AnswerEncNo) {
 		encAnswer = false
 	}
-	var ad refcodec.Ad
+	var ad Ad
 	ad.SetStr("AuthMethods", commonAuth)
 	ad.SetStr("CryptoMethods", p.commonCipher)
 	ad.SetStr("AuthMethodsList", strings.Join(p.Cfg.Methods, ","))
@@ -719,7 +719,7 @@ func (p *Peer) sendServerAd() error {
 	p.srvAd = ad
 	p.Obs.ServerAd = &ad
 	p.Obs.AnswerAuth, p.Obs.AnswerEnc = yn(p.doAuth), yn(encAnswer)
-	if err := p.SendMsg(refcodec.AppendAd(nil, ad, false), false); err != nil {
+	if err := p.SendMsg(AppendAd(nil, ad, false), false); err != nil {
 		return err
 	}
 	if deny != "" {
@@ -805,7 +805,7 @@ func (p *Peer) claimToBeServer() error {
 	if err != nil {
 		return err
 	}
-	r := refcodec.Reader{B: pl}
+	r := Reader{B: pl}
 	status, err := r.Int()
 	if err != nil {
 		return err
@@ -850,7 +850,7 @@ func randHex(n int) string {
 }
 
 func (p *Peer) sendPostAuth() error {
-	var ad refcodec.Ad
+	var ad Ad
 	rc := "AUTHORIZED"
 	if p.dev(PostAuthDenied) {
 		rc = "DENIED"
@@ -884,13 +884,13 @@ func (p *Peer) sendPostAuth() error {
 	} else {
 		p.Obs.PostAuthClass = "clear"
 	}
-	return p.SendMsg(refcodec.AppendAd(nil, ad, sealed), sealed)
+	return p.SendMsg(AppendAd(nil, ad, sealed), sealed)
 }
 
 func (p *Peer) sendResumeReply() error {
 	sid := p.Obs.ResumeSid
 	sess, ok := p.Cfg.Sessions[sid]
-	var ad refcodec.Ad
+	var ad Ad
 	switch {
 	case p.dev(ReportDenied):
 		ad.SetStr("ReturnCode", "DENIED")
@@ -912,7 +912,7 @@ func (p *Peer) sendResumeReply() error {
 	p.Obs.ResumeReply = &ad
 	if rr, has := p.hello.Bool("ResumeResponse"); has && !rr && !p.dev(ReplyWithoutKey) {
 		p.logf("client asked for no resumption reply")
-	} else if err := p.SendMsg(refcodec.AppendAd(nil, ad, false), false); err != nil {
+	} else if err := p.SendMsg(AppendAd(nil, ad, false), false); err != nil {
 		return err
 	}
 	if !p.resumeAuthorized {
@@ -942,7 +942,7 @@ func (p *Peer) resumeKeySetup() error {
 // ---------------------------------------------------------------- client role
 
 func (p *Peer) sendHello() error {
-	var ad refcodec.Ad
+	var ad Ad
 	ad.SetStr("AuthMethods", strings.Join(p.Cfg.Methods, ","))
 	ad.SetStr("CryptoMethods", strings.Join(p.ciphers(), ","))
 	auth, enc := p.Cfg.AuthLevel, p.Cfg.EncLevel
@@ -967,8 +967,8 @@ func (p *Peer) sendHello() error {
 	p.hello = ad
 	p.Obs.Hello = &ad
 	p.Obs.HelloCmd = DCAuthenticate
-	b := refcodec.AppendInt(nil, DCAuthenticate)
-	return p.SendMsg(refcodec.AppendAd(b, ad, false), false)
+	b := AppendInt(nil, DCAuthenticate)
+	return p.SendMsg(AppendAd(b, ad, false), false)
 }
 
 func (p *Peer) recvServerAd() error {
@@ -976,7 +976,7 @@ func (p *Peer) recvServerAd() error {
 	if err != nil {
 		return err
 	}
-	r := refcodec.Reader{B: pl}
+	r := Reader{B: pl}
 	ad, err := r.ReadAd()
 	if err != nil {
 		return fmt.Errorf("peer: server ad: %w", err)
@@ -1077,7 +1077,7 @@ func (p *Peer) clientAuthExchange() error {
 		if err != nil {
 			return fmt.Errorf("peer: waiting for the key-exchange message: %w", err)
 		}
-		r := refcodec.Reader{B: pl}
+		r := Reader{B: pl}
 		if hk, err := r.Int(); err != nil || hk != 0 {
 			p.logf("key-exchange message: hasKey=%d err=%v", hk, err)
 		}
@@ -1087,8 +1087,8 @@ func (p *Peer) clientAuthExchange() error {
 }
 
 func (p *Peer) claimToBeClient() error {
-	b := refcodec.AppendInt(nil, 1)
-	b = refcodec.AppendString(b, p.Cfg.ClaimUser, p.HasKey())
+	b := AppendInt(nil, 1)
+	b = AppendString(b, p.Cfg.ClaimUser, p.HasKey())
 	if err := p.SendMsg(b, p.HasKey()); err != nil {
 		return err
 	}
@@ -1115,13 +1115,13 @@ func (p *Peer) recvPostAuth() error {
 		}
 	}
 	p.Obs.PostAuthClass = class
-	r := refcodec.Reader{B: pl, Enc: class == "protected"}
+	r := Reader{B: pl, Enc: class == "protected"}
 	ad, err := r.ReadAd()
 	if err != nil && class != "protected" {
 		// Not readable in the form the peer expects. Either the endpoint wrote
 		// cleartext although the peer holds a key, or it protected the ad with a key
 		// the peer does not hold ("opaque").
-		r = refcodec.Reader{B: pl}
+		r = Reader{B: pl}
 		if ad2, err2 := r.ReadAd(); err2 == nil && r.Left() == 0 {
 			p.Obs.PostAuthClass = "clear"
 			p.Obs.PostAuth = &ad2
@@ -1141,7 +1141,7 @@ func (p *Peer) recvPostAuth() error {
 }
 
 func (p *Peer) sendResumeRequest() error {
-	var ad refcodec.Ad
+	var ad Ad
 	ad.SetInt("Command", int64(p.Cfg.Command))
 	ad.SetStr("UseSession", "YES")
 	ad.SetStr("Sid", p.Cfg.Resume.Sid)
@@ -1152,8 +1152,8 @@ func (p *Peer) sendResumeRequest() error {
 	p.Obs.Hello = &ad
 	p.Obs.HelloCmd = DCAuthenticate
 	p.Obs.ResumeRequested, p.Obs.ResumeSid = true, p.Cfg.Resume.Sid
-	b := refcodec.AppendInt(nil, DCAuthenticate)
-	return p.SendMsg(refcodec.AppendAd(b, ad, false), false)
+	b := AppendInt(nil, DCAuthenticate)
+	return p.SendMsg(AppendAd(b, ad, false), false)
 }
 
 func (p *Peer) recvResumeReply() error {
@@ -1161,7 +1161,7 @@ func (p *Peer) recvResumeReply() error {
 	if err != nil {
 		return err
 	}
-	r := refcodec.Reader{B: pl}
+	r := Reader{B: pl}
 	ad, err := r.ReadAd()
 	if err != nil {
 		return fmt.Errorf("peer: resumption reply: %w", err)
